@@ -298,12 +298,7 @@ func (x *Exec) binary(st *State, e *ast.BinaryExpr) Term {
 			r := env.nilCompare(v, e.Op == token.NEQ)
 			if v.Sort.Kind == KOpaque {
 				// interface / func values: nil-ness is an uninterpreted predicate
-				fn := "isnil." + v.Sort.Name
-				if !c.declared[fn] {
-					c.declared[fn] = true
-					c.emit(fmt.Sprintf("(declare-fun %s (%s) Bool)", fn, v.Sort.Name))
-				}
-				r = app(sortBool, fn, v)
+				r = c.opaqueIsNil(v)
 				if e.Op == token.NEQ {
 					r = tNot(r)
 				}
@@ -569,7 +564,7 @@ func (x *Exec) composite(st *State, e *ast.CompositeLit) Term {
 	case *types.Slice, *types.Array:
 		arr := c.fresh("litarr", c.arrSort(sortInt, s.Elem))
 		if _, isArr := u.(*types.Array); isArr {
-			arr = Term{S: fmt.Sprintf("((as const %s) %s)", arr.Sort.Name, c.zero(s.Elem, nil).S), Sort: arr.Sort}
+			arr = c.constArr(arr.Sort, c.zero(s.Elem, nil))
 		}
 		n := int64(0)
 		for _, el := range e.Elts {
